@@ -1,9 +1,653 @@
 package main
 
-import "govc/vc"
+import (
+	"context"
+	"fmt"
+	"go/types"
+	"math/big"
+	"os"
+	osexec "os/exec"
+	"regexp"
+	"sort"
+	"strings"
+	"time"
 
-// genModelReplay: model-to-test translation for functions over scalars, byte slices and strings.
-// Returns false when no replay could be produced.
-func genModelReplay(r *propRun, s *vc.ObSummary, rep map[string]any) bool {
-	return false
+	"govc/spec"
+	"govc/vc"
+)
+
+// Model replay: the solver's counterexample of a failed obligation is turned into a Go test that
+// calls the REAL function on the model's input and evaluates the failed clause of the contract,
+// compiled mechanically from the contract text to Go (the contract language is Go expressions plus
+// ==>, <==>, bounded quantifiers, old(), ?:). The test is injected with `go test -overlay`.
+//
+// Supported: functions and methods whose parameters are integers, booleans, floats (bit patterns),
+// strings, slices of those, and pointers to such values or to structs made of them; obligations of
+// kind post / behavior / lemma (clause compiled and evaluated) and the run-time safety kinds
+// (the replay succeeds iff the real code panics). Everything else: no replay, and the VIOLATION
+// line says no-failing-input-found.
+
+const maxReplayLen = 48
+
+type replayGen struct {
+	r        *propRun
+	prog     *vc.Prog
+	c        *vc.Contract
+	pkg      *types.Package
+	helpers  map[string]string // spec functions compiled to Go
+	imports  map[string]bool
+	unknown  []string // clauses that could not be compiled
+	values   map[string]string
+	skipNote []string
+	paramTypes []map[string]types.Type
+}
+
+type unsupportedReplay struct{ why string }
+
+func failReplay(f string, a ...any) { panic(unsupportedReplay{fmt.Sprintf(f, a...)}) }
+
+func genModelReplay(r *propRun, s *vc.ObSummary, rep map[string]any) (ok bool) {
+	defer func() {
+		if e := recover(); e != nil {
+			if u, is := e.(unsupportedReplay); is {
+				rep["replay_note"] = "no model replay: " + u.why
+				ok = false
+				return
+			}
+			rep["replay_note"] = fmt.Sprintf("no model replay: internal error %v", e)
+			ok = false
+		}
+	}()
+	o := s.Worst
+	if o == nil || o.File == "" || o.Q == nil {
+		return false
+	}
+	if _, err := os.Stat(o.File); err != nil {
+		return false
+	}
+	g := &replayGen{r: r, prog: r.prog, helpers: map[string]string{}, imports: map[string]bool{"testing": true}, values: map[string]string{}}
+	hash := strings.Index(s.Ob, "#")
+	if hash < 0 {
+		return false
+	}
+	what := s.Ob[hash+1:]
+	fkey := o.Q.Func
+	src := ""
+	if strings.HasPrefix(fkey, "lemma ") {
+		failReplay("lemma obligations are not replayed (no code is executed)")
+	}
+	for _, pk := range r.prog.Pkgs {
+		for _, c := range r.prog.Functions(pk.PkgPath) {
+			if c.C.Key() == fkey && strings.HasPrefix(s.Ob, pkgShortName(pk.PkgPath)+".") {
+				g.c = c
+				g.pkg = pk.Types
+			}
+		}
+	}
+	if g.c == nil {
+		failReplay("contract of %s not found", fkey)
+	}
+	model := g.solveSmall(o)
+	src = g.testSource(o, what, model)
+	pkgDir := pkgDirOf(r, s)
+	rep["test_source"] = src
+	rep["test_name"] = "TestGovcReplay"
+	rep["package_dir"] = pkgDir
+	rep["replay_kind"] = "solver model (inputs bounded to length " + fmt.Sprint(maxReplayLen) + ") run on the real function; clause compiled from the contract"
+	rep["model_values"] = g.values
+	if len(g.skipNote) > 0 {
+		rep["replay_skipped_clauses"] = g.skipNote
+	}
+	out, failed, err := runOverlayTest(pkgDir, "TestGovcReplay", src)
+	rep["replay_output"] = tail(out, 4000)
+	if err != nil {
+		rep["replay_error"] = err.Error()
+	}
+	rep["reproduced"] = failed && err == nil && !strings.Contains(out, "INCONCLUSIVE")
+	return true
+}
+
+func pkgShortName(path string) string {
+	if i := strings.LastIndex(path, "/"); i >= 0 {
+		return path[i+1:]
+	}
+	return path
+}
+
+// ---- model extraction
+
+type inputTerm struct {
+	name string // Go-side name
+	smt  string // SMT-LIB term to evaluate
+}
+
+var declRe = regexp.MustCompile(`\(declare-const (\S+) `)
+
+// solveSmall re-solves the failed query with the inputs bounded to small sizes and reads the
+// values of the inputs' leaves.
+func (g *replayGen) solveSmall(o *vc.Outcome) map[string]*big.Int {
+	b, err := os.ReadFile(o.File)
+	if err != nil {
+		failReplay("query file gone")
+	}
+	txt := string(b)
+	declared := map[string]bool{}
+	for _, m := range declRe.FindAllStringSubmatch(txt, -1) {
+		declared[m[1]] = true
+	}
+	i := strings.LastIndex(txt, "(check-sat)")
+	if i < 0 {
+		failReplay("no check-sat in query")
+	}
+	head := txt[:i]
+	var extra []string
+	var want []string
+	add := func(term string) { want = append(want, term) }
+	heapByte := "A$__BitVec8_!g0"
+	for _, in := range o.Q.Inputs {
+		base := "in$" + sanitizeIdent(in.Name)
+		switch {
+		case strings.HasPrefix(in.Type, "[]"):
+			for _, f := range []string{"sl-ref", "sl-off", "sl-len", "sl-cap"} {
+				if !declared[base+"."+f] {
+					continue
+				}
+				add(base + "." + f)
+			}
+			if declared[base+".sl-len"] {
+				extra = append(extra, fmt.Sprintf("(assert (bvule %s.sl-len #x%016x))", base, maxReplayLen))
+			}
+			if declared[base+".sl-cap"] {
+				extra = append(extra, fmt.Sprintf("(assert (bvule %s.sl-cap #x%016x))", base, 2*maxReplayLen))
+			}
+			if in.Type == "[]byte" || in.Type == "[]uint8" {
+				if declared[heapByte] && declared[base+".sl-ref"] && declared[base+".sl-off"] {
+					for k := 0; k < maxReplayLen; k++ {
+						add(fmt.Sprintf("(select (select %s %s.sl-ref) (bvadd %s.sl-off #x%016x))", heapByte, base, base, k))
+					}
+				}
+			}
+			if in.Type == "[]bool" {
+				hb := "A$Bool!g0"
+				if declared[hb] && declared[base+".sl-ref"] && declared[base+".sl-off"] {
+					for k := 0; k < maxReplayLen; k++ {
+						add(fmt.Sprintf("(select (select %s %s.sl-ref) (bvadd %s.sl-off #x%016x))", hb, base, base, k))
+					}
+				}
+			}
+		case in.Type == "string":
+			if declared[base+".str-len"] {
+				add(base + ".str-len")
+				extra = append(extra, fmt.Sprintf("(assert (bvule %s.str-len #x%016x))", base, maxReplayLen))
+			}
+			if declared[base+".str-arr"] && declared[base+".str-off"] {
+				for k := 0; k < maxReplayLen; k++ {
+					add(fmt.Sprintf("(select %s.str-arr (bvadd %s.str-off #x%016x))", base, base, k))
+				}
+			}
+		case strings.HasPrefix(in.Type, "*"):
+			if declared[base] {
+				add(base)
+				// pointee cells of scalar types
+				for _, hp := range []string{"H$__BitVec8_!g0", "H$__BitVec16_!g0", "H$__BitVec32_!g0", "H$__BitVec64_!g0", "H$Bool!g0"} {
+					if declared[hp] {
+						add(fmt.Sprintf("(select %s %s)", hp, base))
+					}
+				}
+			}
+		default:
+			if declared[base] {
+				add(base)
+			}
+		}
+	}
+	if len(want) == 0 {
+		return map[string]*big.Int{}
+	}
+	q := head + strings.Join(extra, "\n") + "\n(check-sat)\n(get-value (" + strings.Join(want, " ") + "))\n"
+	f := o.File + ".replay.smt2"
+	_ = os.WriteFile(f, []byte(q), 0o644)
+	defer os.Remove(f)
+	ctx, cancel := context.WithTimeout(context.Background(), 30*time.Second)
+	defer cancel()
+	out, _ := osexec.CommandContext(ctx, "z3-new", "-smt2", "-T:25", f).CombinedOutput()
+	s := string(out)
+	if !strings.HasPrefix(strings.TrimSpace(s), "sat") {
+		failReplay("no small model (inputs bounded to length %d): solver said %s", maxReplayLen, strings.TrimSpace(firstLineOf(s)))
+	}
+	vals := parseGetValue(s[strings.Index(s, "\n")+1:])
+	if len(vals) != len(want) {
+		failReplay("could not parse the model (%d of %d values)", len(vals), len(want))
+	}
+	m := map[string]*big.Int{}
+	for i, w := range want {
+		m[w] = vals[i]
+		if len(w) < 60 {
+			g.values[w] = vals[i].String()
+		}
+	}
+	return m
+}
+
+func sanitizeIdent(s string) string {
+	var sb strings.Builder
+	for _, c := range s {
+		switch {
+		case c >= 'a' && c <= 'z', c >= 'A' && c <= 'Z', c >= '0' && c <= '9', c == '_':
+			sb.WriteRune(c)
+		case c == '.', c == '/':
+			sb.WriteRune('_')
+		default:
+			sb.WriteString("_")
+		}
+	}
+	return sb.String()
+}
+
+// parseGetValue parses ((t v) (t v) ...) and returns the values in order.
+func parseGetValue(s string) []*big.Int {
+	var out []*big.Int
+	// tokenise s-expressions
+	depth := 0
+	start := -1
+	var pairs []string
+	for i, c := range s {
+		switch c {
+		case '(':
+			depth++
+			if depth == 2 {
+				start = i
+			}
+		case ')':
+			if depth == 2 && start >= 0 {
+				pairs = append(pairs, s[start:i+1])
+				start = -1
+			}
+			depth--
+		}
+	}
+	for _, p := range pairs {
+		// value = last atom or (- n)
+		p = strings.TrimSpace(p[1 : len(p)-1])
+		var v string
+		if strings.HasSuffix(p, ")") {
+			j := strings.LastIndex(p, "(")
+			v = p[j:]
+		} else {
+			j := strings.LastIndexAny(p, " \t\n")
+			v = p[j+1:]
+		}
+		n := new(big.Int)
+		switch {
+		case strings.HasPrefix(v, "#x"):
+			n.SetString(v[2:], 16)
+		case strings.HasPrefix(v, "#b"):
+			n.SetString(v[2:], 2)
+		case v == "true":
+			n.SetInt64(1)
+		case v == "false":
+			n.SetInt64(0)
+		case strings.HasPrefix(v, "(-"):
+			n.SetString(strings.TrimSpace(strings.TrimSuffix(strings.TrimPrefix(v, "(-"), ")")), 10)
+			n.Neg(n)
+		default:
+			if _, ok := n.SetString(v, 10); !ok {
+				return nil
+			}
+		}
+		out = append(out, n)
+	}
+	return out
+}
+
+// ---- test generation
+
+func (g *replayGen) goLiteral(in vc.NamedTerm, t types.Type, model map[string]*big.Int) (decl string) {
+	base := "in$" + sanitizeIdent(in.Name)
+	name := goName(in.Name)
+	get := func(k string) *big.Int {
+		if v, ok := model[k]; ok {
+			return v
+		}
+		return new(big.Int)
+	}
+	intLit := func(v *big.Int, bt *types.Basic) string {
+		w := 64
+		switch bt.Kind() {
+		case types.Int8, types.Uint8:
+			w = 8
+		case types.Int16, types.Uint16:
+			w = 16
+		case types.Int32, types.Uint32:
+			w = 32
+		}
+		x := new(big.Int).Set(v)
+		if bt.Info()&types.IsUnsigned == 0 && x.Bit(w-1) == 1 {
+			x.Sub(x, new(big.Int).Lsh(big.NewInt(1), uint(w)))
+		}
+		return fmt.Sprintf("%s(%s)", bt.Name(), x.String())
+	}
+	switch u := t.Underlying().(type) {
+	case *types.Basic:
+		switch {
+		case u.Info()&types.IsInteger != 0:
+			return fmt.Sprintf("%s := %s", name, intLit(get(base), u))
+		case u.Info()&types.IsBoolean != 0:
+			return fmt.Sprintf("%s := %v", name, get(base).Sign() != 0)
+		case u.Info()&types.IsString != 0:
+			n := int(get(base + ".str-len").Int64())
+			var bs []string
+			for k := 0; k < n && k < maxReplayLen; k++ {
+				bs = append(bs, get(fmt.Sprintf("(select %s.str-arr (bvadd %s.str-off #x%016x))", base, base, k)).String())
+			}
+			return fmt.Sprintf("%s := string([]byte{%s})", name, strings.Join(bs, ", "))
+		case u.Kind() == types.Float32:
+			g.imports["math"] = true
+			return fmt.Sprintf("%s := math.Float32frombits(%d)", name, get(base).Uint64())
+		case u.Kind() == types.Float64:
+			g.imports["math"] = true
+			return fmt.Sprintf("%s := math.Float64frombits(%d)", name, get(base).Uint64())
+		}
+	case *types.Slice:
+		eb, ok := u.Elem().Underlying().(*types.Basic)
+		if !ok {
+			failReplay("slice of %s", u.Elem())
+		}
+		n := int(get(base + ".sl-len").Int64())
+		cp := int(get(base + ".sl-cap").Int64())
+		if cp < n {
+			cp = n
+		}
+		if get(base+".sl-ref").Sign() == 0 && n == 0 {
+			return fmt.Sprintf("var %s %s", name, types.TypeString(t, qualifier(g.pkg)))
+		}
+		var es []string
+		for k := 0; k < n && k < maxReplayLen; k++ {
+			var key string
+			switch {
+			case eb.Kind() == types.Uint8:
+				key = fmt.Sprintf("(select (select A$__BitVec8_!g0 %s.sl-ref) (bvadd %s.sl-off #x%016x))", base, base, k)
+				es = append(es, get(key).String())
+			case eb.Info()&types.IsBoolean != 0:
+				key = fmt.Sprintf("(select (select A$Bool!g0 %s.sl-ref) (bvadd %s.sl-off #x%016x))", base, base, k)
+				es = append(es, fmt.Sprint(get(key).Sign() != 0))
+			default:
+				failReplay("slice of %s", u.Elem())
+			}
+		}
+		ts := types.TypeString(t, qualifier(g.pkg))
+		return fmt.Sprintf("%s := append(make(%s, 0, %d), %s{%s}...)", name, ts, cp, ts, strings.Join(es, ", "))
+	case *types.Pointer:
+		if get(base).Sign() == 0 {
+			return fmt.Sprintf("var %s %s", name, types.TypeString(t, qualifier(g.pkg)))
+		}
+		et := u.Elem()
+		ets := types.TypeString(et, qualifier(g.pkg))
+		init := ""
+		if eb, ok := et.Underlying().(*types.Basic); ok {
+			var hp string
+			switch {
+			case eb.Info()&types.IsBoolean != 0:
+				hp = "H$Bool!g0"
+			case eb.Info()&types.IsInteger != 0:
+				hp = fmt.Sprintf("H$__BitVec%d_!g0", map[types.BasicKind]int{types.Int8: 8, types.Uint8: 8, types.Int16: 16, types.Uint16: 16, types.Int32: 32, types.Uint32: 32}[eb.Kind()])
+				if strings.HasSuffix(hp, "BitVec0_!g0") {
+					hp = "H$__BitVec64_!g0"
+				}
+			}
+			if v, ok := model[fmt.Sprintf("(select %s %s)", hp, base)]; ok && hp != "" {
+				if eb.Info()&types.IsBoolean != 0 {
+					init = fmt.Sprintf("; *%s = %v", name, v.Sign() != 0)
+				} else {
+					init = fmt.Sprintf("; *%s = %s", name, intLit(v, eb))
+				}
+			}
+		}
+		return fmt.Sprintf("%s := new(%s)%s", name, ets, init)
+	}
+	failReplay("parameter %s of type %s", in.Name, t)
+	return ""
+}
+
+func goName(s string) string {
+	s = sanitizeIdent(s)
+	return "p_" + s
+}
+
+func qualifier(pkg *types.Package) types.Qualifier {
+	return func(p *types.Package) string {
+		if p == pkg {
+			return ""
+		}
+		return p.Name()
+	}
+}
+
+func (g *replayGen) testSource(o *vc.Outcome, what string, model map[string]*big.Int) string {
+	fn := g.c.Fn
+	sig := fn.Signature
+	if fn.TypeParams() != nil && fn.TypeParams().Len() > 0 {
+		failReplay("generic function")
+	}
+	var body strings.Builder
+	// parameter names as in the contract
+	names := []string{}
+	if sig.Recv() != nil {
+		rn := g.c.C.RecvName
+		if rn == "" {
+			rn = fn.Params[0].Name()
+		}
+		names = append(names, rn)
+	}
+	for i, p := range g.c.C.Params {
+		n := p.Name
+		if n == "" || n == "_" {
+			k := i
+			if sig.Recv() != nil {
+				k++
+			}
+			n = fn.Params[k].Name()
+		}
+		names = append(names, n)
+	}
+	ptypes := map[string]types.Type{}
+	for i, n := range names {
+		ptypes[n] = fn.Params[i].Type()
+	}
+	// inputs (parameters and ghost parameters of behaviours)
+	env := map[string]string{}    // spec name -> Go expression (current)
+	oldEnv := map[string]string{} // spec name -> Go expression (entry snapshot)
+	for _, in := range o.Q.Inputs {
+		t, ok := ptypes[in.Name]
+		if !ok {
+			// ghost input: type from its printed Go type
+			t = g.parseType(in.Type)
+		}
+		body.WriteString("\t" + g.goLiteral(in, t, model) + "\n")
+		gn := goName(in.Name)
+		sn := in.Name
+		if strings.HasPrefix(sn, "ghost_") {
+			// ghost_<behavior>_<name> or ghost_<name>
+			parts := strings.SplitN(sn, "_", 3)
+			sn = parts[len(parts)-1]
+		}
+		env[sn] = gn
+		// entry snapshot
+		switch tt := t.Underlying().(type) {
+		case *types.Slice:
+			body.WriteString(fmt.Sprintf("\to_%s := append(%s(nil), %s...)\n", gn, types.TypeString(t, qualifier(g.pkg)), gn))
+			oldEnv[sn] = "o_" + gn
+		case *types.Pointer:
+			_ = tt
+			body.WriteString(fmt.Sprintf("\tvar o_%s %s\n\tif %s != nil {\n\t\tov := *%s\n\t\to_%s = &ov\n\t}\n", gn, types.TypeString(t, qualifier(g.pkg)), gn, gn, gn))
+			oldEnv[sn] = "o_" + gn
+		default:
+			oldEnv[sn] = gn
+		}
+		body.WriteString("\t_ = " + oldEnv[sn] + "\n")
+	}
+	// the call
+	var args []string
+	for _, n := range names {
+		if _, ok := env[n]; !ok {
+			failReplay("no model value for parameter %s", n)
+		}
+		args = append(args, env[n])
+	}
+	var rnames []string
+	res := sig.Results()
+	for i := 0; i < res.Len(); i++ {
+		rn := fmt.Sprintf("r_%d", i)
+		rnames = append(rnames, rn)
+		sn := ""
+		if i < len(g.c.C.Results) && g.c.C.Results[i].Name != "" {
+			sn = g.c.C.Results[i].Name
+		} else if res.At(i).Name() != "" {
+			sn = res.At(i).Name()
+		}
+		if sn != "" && sn != "_" {
+			env[sn] = rn
+		}
+		if res.Len() == 1 {
+			env["result"] = rn
+		}
+	}
+	callee := fn.Name()
+	callArgs := args
+	if sig.Recv() != nil {
+		callee = args[0] + "." + fn.Name()
+		callArgs = args[1:]
+	}
+	call := fmt.Sprintf("%s(%s)", callee, strings.Join(callArgs, ", "))
+	for i := range rnames {
+		body.WriteString(fmt.Sprintf("\tvar %s %s\n", rnames[i], types.TypeString(res.At(i).Type(), qualifier(g.pkg))))
+	}
+	if len(rnames) > 0 {
+		call = strings.Join(rnames, ", ") + " = " + call
+	}
+	g.imports["fmt"] = true
+	body.WriteString("\tpanicked := func() (p any) {\n\t\tdefer func() { p = recover() }()\n\t\t" + call + "\n\t\treturn nil\n\t}()\n")
+	for _, rn := range rnames {
+		body.WriteString("\t_ = " + rn + "\n")
+	}
+	kind := what
+	if i := strings.IndexAny(kind, ".["); i >= 0 {
+		kind = kind[:i]
+	}
+	switch kind {
+	case "index", "slice", "nil", "div", "shift", "panic", "make", "typeassert":
+		body.WriteString("\tif panicked != nil {\n\t\tt.Fatalf(\"REPRODUCED: the real function panics on the model input: %v\", panicked)\n\t}\n")
+		body.WriteString("\tt.Log(\"the real function does not panic on this input\")\n")
+	case "post", "behavior":
+		body.WriteString("\tif panicked != nil {\n\t\tt.Fatalf(\"REPRODUCED (as a panic): %v\", panicked)\n\t}\n")
+		clause, assumes := g.findClause(what)
+		if clause == nil {
+			failReplay("clause %s not found", what)
+		}
+		cc := &specCompiler{g: g, env: env, oldEnv: oldEnv, scope: map[string]string{}}
+		var cond string
+		cexpr := cc.compile(clause.E)
+		cond = cexpr
+		if len(assumes) > 0 {
+			var as []string
+			for _, a := range assumes {
+				oc := &specCompiler{g: g, env: oldEnv, oldEnv: oldEnv, scope: map[string]string{}}
+				as = append(as, "("+oc.compile(a.E)+")")
+			}
+			cond = "!(" + strings.Join(as, " && ") + ") || (" + cexpr + ")"
+		}
+		body.WriteString("\tholds, evalPanic := func() (ok bool, p any) {\n\t\tdefer func() { p = recover() }()\n\t\treturn " + cond + ", nil\n\t}()\n")
+		body.WriteString("\tif evalPanic != nil {\n\t\tt.Fatalf(\"INCONCLUSIVE: the clause cannot be evaluated on this input: %v\", evalPanic)\n\t}\n")
+		body.WriteString(fmt.Sprintf("\tif !holds {\n\t\tt.Fatalf(\"REPRODUCED: the real function violates the clause %%s (results %%v)\", %q, []any{%s})\n\t}\n", clause.Text, strings.Join(rnames, ", ")))
+	default:
+		failReplay("obligations of kind %q are internal to the function (loop invariant, callee precondition, frame): no function-level replay", kind)
+	}
+	var imps []string
+	for i := range g.imports {
+		imps = append(imps, i)
+	}
+	sort.Strings(imps)
+	var sb strings.Builder
+	sb.WriteString("package " + g.pkg.Name() + "\n\nimport (\n")
+	for _, i := range imps {
+		sb.WriteString("\t\"" + i + "\"\n")
+	}
+	sb.WriteString(")\n\n")
+	sb.WriteString("// generated by govc from the solver model of " + o.Q.Ob + "\n")
+	sb.WriteString("func TestGovcReplay(t *testing.T) {\n" + body.String() + "}\n\n")
+	var hs []string
+	for k := range g.helpers {
+		hs = append(hs, k)
+	}
+	sort.Strings(hs)
+	for _, k := range hs {
+		sb.WriteString(g.helpers[k] + "\n")
+	}
+	sb.WriteString(replayRuntime)
+	sb.WriteString("\nvar _ = fmt.Sprint\n")
+	return sb.String()
+}
+
+const replayRuntime = `
+func govcSeqEq[T comparable](a, b []T) bool {
+	if len(a) != len(b) {
+		return false
+	}
+	for i := range a {
+		if a[i] != b[i] {
+			return false
+		}
+	}
+	return true
+}
+
+func govcSameSlice[T any](a, b []T) bool {
+	if len(a) != len(b) || cap(a) != cap(b) {
+		return false
+	}
+	if cap(a) == 0 {
+		return true
+	}
+	return &a[:cap(a)][0] == &b[:cap(b)][0]
+}
+`
+
+func (g *replayGen) parseType(s string) types.Type {
+	switch s {
+	case "[]byte", "[]uint8":
+		return types.NewSlice(types.Typ[types.Uint8])
+	case "[]bool":
+		return types.NewSlice(types.Typ[types.Bool])
+	case "string":
+		return types.Typ[types.String]
+	case "bool":
+		return types.Typ[types.Bool]
+	}
+	for _, b := range types.Typ {
+		if b != nil && b.Name() == s {
+			return b
+		}
+	}
+	failReplay("ghost parameter of type %s", s)
+	return nil
+}
+
+func (g *replayGen) findClause(what string) (*spec.Clause, []*spec.Clause) {
+	c := g.c.C
+	if strings.HasPrefix(what, "post") {
+		for i, e := range c.Ensures {
+			if what == fmt.Sprintf("post[%d]", i) || (e.Label != "" && what == "post."+e.Label) {
+				return e, nil
+			}
+		}
+		return nil, nil
+	}
+	for _, b := range c.Behaviors {
+		for i, e := range b.Ensures {
+			if what == fmt.Sprintf("behavior.%s[%d]", b.Name, i) {
+				return e, b.Assumes
+			}
+		}
+	}
+	return nil, nil
 }
